@@ -35,6 +35,7 @@ TextAll   == TextClasses
 MutTags   == {"trunc", "truncmid", "dropend", "dupstart", "dupend", "swapend"}
 MutExtreme == {"deep", "wide", "bigtext", "bigattr", "manyattrs"}
 MutSmall  == AllMuts \ MutExtreme
+MutSim    == {"none", "defaultns", "prefix", "mixedns", "nodecl", "bom", "trunc", "dupstart", "strict", "garbage"}   \* half of them leave a readable document
 EntriesAll == {"mem", "file", "memerr"}
 
 Def == [ctxs |-> AllCtx, names |-> NamesAll, wrong |-> WrongAll, attrdev |-> AttrClasses \ {"ok"}, textcls |-> {"plain"},
@@ -54,18 +55,18 @@ GroupDef(gn) ==
     [] gn = "q-pkg"    -> PkAll([Def EXCEPT !.ctxs = {"body", "tc"}, !.maxnodes = 0, !.battery = "full"])
     [] gn = "q-extreme" -> [Def EXCEPT !.ctxs = {"tc", "r"}, !.names = {"p", "t", "tbl", "text"}, !.wrong = {"tbl"}, !.attrdev = {}, !.minnodes = 1,
                                      !.muts = MutExtreme, !.deeps = {2000}, !.wides = {8000}]
-    [] gn = "q-sim"    -> PkAll([Def EXCEPT !.maxnodes = 9, !.maxdepth = 4, !.maxodd = 3, !.muts = MutSmall, !.textcls = TextAll, !.rich = {TRUE, FALSE}, !.cross = TRUE])
+    [] gn = "q-sim"    -> PkAll([Def EXCEPT !.maxnodes = 9, !.maxdepth = 4, !.maxodd = 3, !.muts = MutSim, !.textcls = TextAll, !.rich = {TRUE, FALSE}, !.cross = TRUE])
        \* ---- thorough tier
-    [] gn = "t-place2" -> [Def EXCEPT !.maxnodes = 2, !.attrdev = {"none", "word", "huge"}, !.textcls = {"plain", "ent", "cdata", "comment"}]
+    [] gn = "t-place2" -> [Def EXCEPT !.maxnodes = 2, !.attrdev = {"none", "huge"}, !.textcls = {"plain", "ent", "cdata", "comment"}]
     [] gn = "t-place3" -> [Def EXCEPT !.ctxs = CtxMain, !.names = NamesMini, !.wrong = WrongMini, !.attrdev = {}, !.minnodes = 3, !.maxnodes = 3, !.maxdepth = 3]
     [] gn = "t-odd2"   -> [Def EXCEPT !.ctxs = CtxMain, !.names = NamesMini, !.attrdev = {"none", "huge"}, !.minnodes = 2, !.maxnodes = 2, !.maxodd = 2, !.textcls = {"plain", "pi", "space"}]
     [] gn = "t-mut0"   -> [Def EXCEPT !.maxnodes = 0, !.muts = MutSmall, !.rich = {TRUE, FALSE}, !.entries = {"mem", "file"}]
     [] gn = "t-mut1"   -> [Def EXCEPT !.names = NamesMini, !.maxodd = 0, !.minnodes = 1, !.muts = MutSmall \ {"none"}]
     [] gn = "t-mut2"   -> [Def EXCEPT !.ctxs = CtxMain, !.names = NamesMini, !.maxodd = 0, !.minnodes = 2, !.maxnodes = 2, !.muts = {"trunc", "dropend"}]
     [] gn = "t-pkg"    -> PkAll([Def EXCEPT !.ctxs = {"body", "tc", "p", "sectPr", "inline"}, !.maxnodes = 0, !.battery = "full", !.rich = {TRUE, FALSE}])
-    [] gn = "t-extreme" -> [Def EXCEPT !.ctxs = {"tc", "r", "bsdt", "hlink", "t"}, !.names = {"p", "t", "tbl", "text"}, !.wrong = {"tbl"},
-                                     !.attrdev = {}, !.minnodes = 1, !.muts = MutExtreme, !.deeps = {30000}, !.wides = {100000}]
-    [] gn = "t-sim"    -> PkAll([Def EXCEPT !.maxnodes = 14, !.maxdepth = 6, !.maxodd = 3, !.muts = MutSmall, !.textcls = TextAll, !.rich = {TRUE, FALSE}, !.cross = TRUE, !.battery = "full"])
+    [] gn = "t-extreme" -> [Def EXCEPT !.ctxs = {"tc", "r", "bsdt"}, !.names = {"p", "t", "tbl", "text"}, !.wrong = {"tbl"},
+                                     !.attrdev = {}, !.minnodes = 1, !.muts = MutExtreme, !.deeps = {30000}, !.wides = {40000}]
+    [] gn = "t-sim"    -> PkAll([Def EXCEPT !.maxnodes = 14, !.maxdepth = 6, !.maxodd = 3, !.muts = MutSim, !.textcls = TextAll, !.rich = {TRUE, FALSE}, !.cross = TRUE, !.battery = "full"])
        \* ---- model checking of the reference machine and of the classification
     [] gn = "mc-q"     -> [Def EXCEPT !.ctxs = {"root", "body", "r", "tc"}, !.names = {"document", "body", "p", "r", "t", "text", "tbl", "tr", "tc", "gridSpan", "sectPr", "pgSz", "unknown"},
                                      !.wrong = {"p", "tbl", "tc", "t", "body", "text"}, !.attrdev = {"none"}, !.textcls = {"plain", "comment"},
